@@ -4893,6 +4893,8 @@ fn process_relocation<'data, 'scope, A: Arch<Platform = Elf>, R: Relocation>(
         }
 
         let atomic_flags = &resources.per_symbol_flags.get_atomic(symbol_id);
+        #[cfg(wild_verif)]
+        simrt::sched_point("elf_sym_flags");
         let previous_flags = atomic_flags.fetch_or(flags_to_add);
 
         if !previous_flags.has_resolution() {
